@@ -22,7 +22,8 @@ MIN_NONTRIVIAL = {"quick": 150, "thorough": 1500}
 REQUIRED_PROBES = ["coarsener_init", "greedy_prune"]
 REQUIRED_FEATURES = ["sched:sequential", "sched:pool", "sched:functor:reverse_eval_map", "sched:functor:eager_map",
                      "k>bins-of-every-chromosome", "chunksize:1", "algebra:chain", "algebra:merge-commute",
-                     "mode:square", "mode:symm", "agg:max", "coarsen:spans>1", "family:variable", "family:trap"]
+                     "mode:square", "mode:symm", "agg:max", "coarsen:spans>1", "family:variable", "family:trap",
+                     "family:coarse_trap"]
 SHARD_TIMEOUT = {"quick": 1800, "thorough": 7200}
 
 
@@ -82,10 +83,15 @@ def one_base(ctx, shard, i, rng):
 
     fam = gen.BT_FAMILIES[(shard["sub"] + i) % len(gen.BT_FAMILIES)]
     bt = gen.gen_bt(rng, fam, max_chroms=4, max_bins=22, widths=(1, 2, 3, 5, 10, 1000))
+    ktrap = None
+    if (shard["sub"] + i) % 5 == 4:
+        ktrap = int(rng.integers(2, 4))
+        bt = gen.gen_coarse_trap_bt(rng, ktrap)
+        fam = "coarse_trap"
     n = gen.bt_nbins(bt)
     symm = bool(rng.random() < 0.6)
     two = bool(rng.random() < 0.4)
-    P = gen.gen_pixels(rng, n, symm, None)
+    P = gen.gen_pixels(rng, n, symm, None if ktrap is None else "dense")
     if not P and rng.random() < 0.7:
         P = gen.gen_pixels(rng, n, symm, "sparse70")
     E = {kk: float(int(rng.integers(-80, 80))) / 8.0 for kk in P} if two else None
@@ -97,6 +103,8 @@ def one_base(ctx, shard, i, rng):
     rowlen = max([sum(1 for kk in P if kk[0] == r) for r in range(n)] or [1])
     ks = sorted({2, 3, int([4, 5, 7][int(rng.integers(3))]), minb + 1, maxb + 1})
     ks = [k for k in ks if k >= 2]
+    if ktrap is not None:
+        ks = sorted(set([ktrap] + ks[:2]))
     chunks = [1, 2, 3, max(rowlen, 1), max(len(P), 1), 10**7]
     base_desc = {"bt": bt, "symm": symm, "pixels": sorted((a, b, v) for (a, b), v in P.items())[:150], "two_cols": two}
     nontriv = bool(P) and maxb >= 2
